@@ -18,7 +18,7 @@
    stage upstream of the targets (C09_rerun_quiet), and the general re-run behaviour is
    characterised exactly (C09_rerun_sources: what executes is what is downstream of a source). *)
 From Coq Require Import NArith List Bool Relations.
-From DudV Require Import Base.Bytes Base.Json Base.GoPath Model.Fs Model.Cache Model.Stage Model.Index Proofs.PipelineProofs Proofs.RunProofs Proofs.FreshProofs.
+From DudV Require Import Base.Bytes Base.Json Base.GoPath Model.Fs Model.Cache Model.Stage Model.Index Proofs.PipelineProofs Proofs.RunProofs Proofs.FreshProofs Proofs.CacheDefs Proofs.CommitProofs Proofs.FreshCommitProofs.
 Import ListNotations.
 
 Theorem C09_executed_or_unchanged :
@@ -114,3 +114,41 @@ Theorem C09_committed_fresh_partial :
       committed_fresh H exec idx c.
 Proof. exact committed_fresh_intro. Qed.
 Print Assumptions C09_committed_fresh_partial.
+
+(* "commits are made only after successful runs", closed under the model's own `run; commit`:
+   partial - proved in full for indexes whose artifacts are all FILES (files_only); for directory
+   artifacts Proofs/FreshCommitProofs.v proves the chain modulo three premises about the commit's
+   result (run_commit_run_outputs_fresh_partial) and shows that a non-recursive directory's checksum
+   does NOT determine its contents (DetCex.norec_not_determined).
+   run (all stages visited) ; commit of every stage ; ANY workspace root2 (edits of sources, of
+   outputs, anything) ; run  ==>  every visited stage with a command is fresh in the final
+   workspace.  The conclusion of C09_run_commit_establishes_files_partial restates every premise
+   for the new index and cache, so the cycle run; commit can be iterated. *)
+Theorem C09_run_commit_run_fresh_files_partial :
+  forall (H : bytes -> bytes) exec strat idx c,
+    H_inj H -> H_has H -> exec_content_only exec idx -> exec_framed_like exec idx ->
+    idx_wf idx -> inputs_wf idx -> owned_below idx -> ksorted (map fst idx) ->
+    files_only idx -> cpaths_apart idx -> committed_fresh_on sorted_tree H exec idx c ->
+    forall fuel ts root root1 ran1 log1 fuel2 ts2 idx' snap c' done fuel3 ts3 root2 root3 ran3 log3,
+      (forall sp stg, alookup sp idx = Some stg -> s_cmd stg <> [] -> alookup sp ran1 <> None) ->
+      run_targets H exec idx c true fuel ts (Ok (root, [], [])) = Ok (root1, ran1, log1) ->
+      cache_ok H c -> resolved c root1 -> sorted_tree root1 ->
+      (forall sp, In sp (map fst idx) -> In sp ts2) ->
+      commit_targets H strat fuel2 ts2 (Ok (mkI idx root1 c, [])) = Ok (mkI idx' snap c', done) ->
+      run_targets H exec idx' c' true fuel3 ts3 (Ok (root2, [], [])) = Ok (root3, ran3, log3) ->
+      sorted_tree root3 ->
+      forall sp stg b, alookup sp ran3 = Some b -> alookup sp idx' = Some stg -> s_cmd stg <> [] ->
+        fresh exec c' sp stg root3.
+Proof. exact run_commit_run_outputs_fresh_files. Qed.
+Print Assumptions C09_run_commit_run_fresh_files_partial.
+
+(* a recorded checksum determines the contents (links read through) of a file artifact and of a
+   recursive directory artifact, in workspaces with sorted listings *)
+Theorem C09_checksum_determines_contents :
+  forall (H : bytes -> bytes) idx c,
+    (forall x y, H x = H y -> x = y) -> cache_ok H c -> man_plain c ->
+    (forall sp stg b, alookup sp idx = Some stg -> In b (s_outputs stg ++ s_inputs stg) ->
+       a_isdir b = true -> a_norec b = false) ->
+    cs_determines_on sorted_tree H idx c.
+Proof. exact cs_determines_all. Qed.
+Print Assumptions C09_checksum_determines_contents.
